@@ -414,7 +414,7 @@ def judge(it, argv, info, r, before, after, recorded, ctx, mode):
                 raise Violation("C20/rows/outside-request", "%s: row path %r for account %d interval %r" % (what, row[0], account, interval))
         if len(blk["groups"]) != max(0, interval[1] - interval[0]):
             raise Violation("C20/rows/count", "%s: %s has %d rows for interval %r" % (what, sec, len(blk["groups"]), interval))
-    if it["paranoia"] and (set(got) != {"BIP44", "BIP49", "BIP84"}):
+    if it["paranoia"] and (set(got) & {"MASTER", "BIP85"}):
         raise Violation("C20/accepted/paranoia-sections", "%s: paranoia output has keys %r" % (what, sorted(got)))
     return want
 
